@@ -1,7 +1,7 @@
 (* C04 — path parameters are bound to exactly the URL text they stand for. *)
 From Model Require Import Str Sexp Http Template Table Curly DetectRoute Jsr311 Router.
 From Spec Require Import RouteSpec.
-From Proofs Require Import ParamProofs OutcomeProofs.
+From Proofs Require Import ParamProofs OutcomeProofs JsrProofs.
 
 (* CurlyRouter.  For the route that is invoked (template of the documented
    forms), the parameter map the handler sees is exactly the map built from the
@@ -19,6 +19,20 @@ Definition C04_curly_statement : Prop :=
 Theorem C04_curly : C04_curly_statement.
 Proof. exact curly_invoked_params. Qed.
 Print Assumptions C04_curly.
+
+(* RouterJSR311.  The parameter map of an invoked route is the map of the structural bindings of root + route
+   template on the path's segments (plain / regex variable -> its segment; tail wildcard -> the remaining text,
+   a trailing slash included; literals bind nothing) — provided the compiled expressions and their VarNames are the
+   structural reading of the two templates ([jsr_tokens_agree], [jsr_names_agree]: booleans that hold for the
+   documented forms and are evaluated on every generated case). *)
+Definition C04_jsr_statement : Prop :=
+  forall (O : oracles) (t : table) (req : request) (w : service) (r : route) (ps : list (str * str)),
+    t_router t = Jsr311 -> route_request O t req = RInvoke w r ps ->
+    jsr_tokens_agree w r = true -> jsr_names_agree w r = true ->
+    ps = fold_left (fun m kv => pset (fst kv) (snd kv) m) (jsr_route_bindings w r (rq_path req)) [].
+Theorem C04_jsr : C04_jsr_statement.
+Proof. exact jsr_invoked_params. Qed.
+Print Assumptions C04_jsr.
 
 Example C04_example :
   let O := {| o_lower := lower_ascii; o_rx := fun _ _ => true; o_rxfull := fun _ _ => false |} in
